@@ -23,6 +23,23 @@ CHECKS["C01"] = dict(
     note="Trusted: TLC, the Go runner (emit/outcome normalisation), the Python AST renderer. Bounded: integer-valued numbers |n|<2^30 (other runs are inconclusive and counted), programs of ~20-200 nodes, seeded sampling of the shape families (exhaustive 2-target assignments in the thorough tier).",
     specs=["LuaValues", "LuaNames", "LuaSem", "LuaSemTrace"])
 
+LSEM_NOTE = "Trusted: TLC, the Go runner (emit/outcome normalisation), the Python AST renderer. Bounded: integer-valued numbers |n|<2^30 (other runs are inconclusive and counted), seeded sampling of the stated families."
+CHECKS["C02"] = dict(
+    technique="LuaSem call rules (Adjust by context, varargs, arg table, __call, method sugar, host callees) evaluated by TLC on enumerated call shapes; real traces validated by LuaSemTrace",
+    category="model_checking",
+    text="The product #params x parameter style x #args x 21 result contexts x #results x callee kind (Lua, __call object, host, method, host re-entry) is enumerated (sampled in the quick tier), each shape rendered to Lua, run on the real interpreter and its trace validated by TLC against LuaSem; plus random nestings, random programs with functions, and tail-call loops 15x deeper than CallStackSize on both call-stack implementations.",
+    design_ref="DESIGN.md section 4 C02", note=LSEM_NOTE, specs=["LuaSem", "LuaSemTrace"])
+CHECKS["C03"] = dict(
+    technique="LuaSem variable cells and fenv rules evaluated by TLC on the capture x exit-path family; real traces validated by LuaSemTrace",
+    category="model_checking",
+    text="Every valid combination of (construct in which a closure is created) x (route by which the scope is left, incl. errors caught by pcall/xpcall and coroutine suspension/death) x (sharing pattern) is rendered with register churn before the closures are used; the real trace must equal the one LuaSem defines (fresh cell per declaration execution, shared between closures, surviving the scope). fenv programs and random closure programs likewise.",
+    design_ref="DESIGN.md section 4 C03", note=LSEM_NOTE, specs=["LuaSem", "LuaSemTrace"])
+CHECKS["C04"] = dict(
+    technique="LuaSem metatable rules (manual 2.8) evaluated by TLC on the operand-type x operator x handler-presence family; real traces validated by LuaSemTrace",
+    category="model_checking",
+    text="Handlers emit their tag and the operands they receive; for operand pairs over 11 value kinds, every binary operator, 5 handler-presence configurations and several handler result kinds the real trace (handler chosen, operand order, result conversion, error or not) must be the one LuaSem defines; __index/__newindex chains, __call positions, <= fallback, unary minus, tostring/__metatable likewise.",
+    design_ref="DESIGN.md section 4 C04", note=LSEM_NOTE, specs=["LuaSem", "LuaSemTrace"])
+
 NOT_YET = {}
 
 
